@@ -91,6 +91,10 @@ def render(model, output: str, inputs: dict[str, str]) -> str:
             if attr(n, "axis", 0) != 0:
                 raise Unsupported("GatherElements with axis != 0")
             return "(GatherElements0 " + " ".join(args()) + ")"
+        if op == "Trilu":
+            if len(n.input) != 2:
+                raise Unsupported("Trilu without k")
+            return f"(Trilu {attr(n, 'upper', 1)} " + " ".join(args()) + ")"
         if op == "CumSum":
             if attr(n, "exclusive", 0) != 0 or attr(n, "reverse", 0) != 0:
                 raise Unsupported("CumSum exclusive / reverse")
